@@ -119,7 +119,6 @@ def _(c):
     c.let("has_pos", "truthy(node) and hasattr(node, 'lineno') and hasattr(node, 'col_offset')")
     c.let("n", "node.lineno")
     c.let("key", "(node, error_code or e)")
-    c.requires("self.caught_errors is None", name="not_catching")
     c.requires("implies(has_pos, 1 <= node.lineno and node.lineno <= len(self._lines()))", name="line_in_file")
     c.requires("implies(has_pos, node.col_offset >= 0)", name="col_nonneg")
     c.requires("self.CONTEXT_LINES >= 0")
@@ -155,3 +154,15 @@ _c.ensures(f"implies(result is not None and has_pos and self._changes_for_fixer 
            f" ite(error_code is not None, f'{{ignore_comment}}[{{error_code.name}}]', ignore_comment))))",
            name="proposed_ignore_line_is_own_line_form")
 _c.ensures(f"implies(result is None or not has_pos or self._changes_for_fixer is None, len(appended({_TXT})) == 0)", name="no_fix_proposed_without_failure")
+
+
+# catch_errors() mode: the two modes of show_error are separated here.  Every clause above describes the reporting mode
+# (caught_errors is None); while errors are being caught, show_error records the error -- whatever its code, enabled or not,
+# because callers use the record as a probe ("did this attempt fail?") -- and reports nothing.
+for _cl in _c.ensures_:
+    _cl.expr = f"implies(self.caught_errors is None, {_cl.expr})"
+    _cl.tree = None
+_c.ensures("implies(self.caught_errors is not None, result is None and len(appended('self.caught_errors')) == 1)", name="while_catching_every_error_is_recorded_whatever_its_code")
+_c.ensures("implies(self.caught_errors is not None, forall(lambda x: (x in self.seen_errors) == (x in old(self.seen_errors)), 'val') and len(appended(" + _TXT + ")) == 0)",
+           name="while_catching_nothing_is_reported_or_consumed")
+_c.ensures("implies(self.caught_errors is None, len(appended('self.caught_errors')) == 0)", name="nothing_is_recorded_outside_catch_errors")
